@@ -10,7 +10,7 @@ harness/cmd/atp (mode "client": real client, scripted server stream, positional 
     against the real client; results must agree with the model; sessions validated by ATPTrace.tla.
  3. fault enumeration on the concrete encoding: for base sessions (v3 serial, v3 concurrent with
     unsolicited traffic, v1) EVERY byte offset of the server-to-client stream x {EOF, I/O error, byte
-    inversion}, faults inside the hello, unsupported version, schema that fails to unserialize, and
+    inversion, single bit flip}, faults inside the hello, unsupported version, schema that fails to unserialize, and
     the write side failing at every position.  Oracles: no panic, every call returns exactly once
     (structural stuck detection), success only for a run whose work-done is intact according to an
     independent decode of the same faulted bytes.
@@ -178,7 +178,7 @@ def run(ctx):
             raise common.Infra("base session %s produced no server stream" % sc["id"])
         step = 1 if (thorough or n <= 400) else 2
         for k in range(0, n, step):
-            for kind in ("eof", "ioerr", "corrupt"):
+            for kind in ("eof", "ioerr", "corrupt", "bitflip"):
                 if kind == "ioerr" and not thorough and k % 3:
                     continue
                 scen.append(dict(sc, id="%s@%d/%s" % (sc["id"], k, kind), fault=dict(kind=kind, at=k)))
